@@ -1163,7 +1163,14 @@ class Executor(object):
                     out.append((c, tm.Exists([j], And(Le(intlit(0), j), Lt(j, SeqLen(seq)),
                                                       py_eq(SeqNth(seq, j), item)))))
                 else:
-                    self.unsupported_if_feasible(c, 'membership in symbolic sequence at line %s' % node.lineno)
+                    # membership in a sequence value of symbolic length: pure, expressed with a quantifier
+                    j = tm.bvar(fresh_name('j'), INT)
+                    seq = Acc(acc, container)
+                    eqs = self.equals(SeqNth(seq, j), item, c, node)
+                    if len(eqs) == 1 and eqs[0][0].running:
+                        out.append((c, tm.Exists([j], And(Le(intlit(0), j), Lt(j, SeqLen(seq)), eqs[0][1]))))
+                    else:
+                        self.unsupported_if_feasible(c, 'membership in symbolic sequence at line %s' % node.lineno)
         rest = st.assume(And(Not(Is('VTuple', container)), Not(Is('VList', container))))
         if rest is not None:
             r2 = rest.assume(Not(Is('VRef', container)))
